@@ -117,6 +117,10 @@ def check_ref_loops(ctx, rule, fn, loaders, label=None, require=1):
             te, fe = L.bool_edges(fn, d[0])
             if te or fe:
                 tests += [s for s, t in te + fe]
+        for b, c, a, d in L.calls_to(fn, ["std::collections::HashMap::<K, V, S, A>::entry", "std::collections::BTreeMap::<K, V, A>::entry"]):
+            if b in body:
+                y, n = L.discr_edges(fn, d[0], 1)
+                tests += [s for s, t in y + n]
         tests += counter_guard_blocks(fn, g, body)
         targets = [b for b in load_blocks if b in body]
         w = None
@@ -212,6 +216,20 @@ def check_progress(ctx, rule, fns, cursor_fields=("position", "pos"), allow=None
                 if rv[0] in ("use",) or rv[0] == "bin":
                     return True
         return False
+    CONSUMERS = ["std::io::Read::read", "std::io::Read::read_exact", "std::io::BufRead::read_until", "std::io::BufRead::read_line",
+                 "std::io::BufRead::consume", "std::io::Seek::seek", "Iterator::next", "Vec::<T, A>::pop", "VecDeque::<T, A>::pop_front",
+                 "std::io::Read::read_to_end", "std::io::BufRead::fill_buf", "Chars::next", "Peekable::<I>::next"]
+    may_advance = set()
+    for fn in fns:
+        if any(writes_cursor(fn, b) for b in range(len(fn.blocks))) or L.calls_to(fn, CONSUMERS):
+            may_advance.add(fn.id)
+    grew = True
+    while grew:
+        grew = False
+        for fn in fns:
+            if fn.id not in may_advance and any((c.get("r") in may_advance) for b, c, a, d, t, u in fn.calls()):
+                may_advance.add(fn.id)
+                grew = True
     advancing = set()
     changed = True
     while changed:
@@ -235,7 +253,8 @@ def check_progress(ctx, rule, fns, cursor_fields=("position", "pos"), allow=None
             if is_iterator_driven(fn, g, body, h):
                 ctx.ok(rule, key, "iterator-driven", fn.where(h), nontrivial=False)
                 continue
-            adv = [b for b in body if writes_cursor(fn, b) or (fn.term(b)[0] == "call" and fn.term(b)[1].get("r") in advancing)]
+            adv = [b for b in body if writes_cursor(fn, b) or (fn.term(b)[0] == "call" and (fn.term(b)[1].get("r") in advancing
+                   or fn.term(b)[1].get("r") in may_advance or L.is_call_to(fn.term(b)[1], CONSUMERS)))]
             # local cursors: locals increased inside the loop and compared in the loop
             latches = [s for s, hh in g.back_edges() if hh == h]
             w = None
